@@ -624,6 +624,35 @@ func init() {
 	intrinsics["strings.TrimSpace"] = func(e *Engine, fr *frame, fn *ssa.Function, args []Value) Value {
 		return e.strTrimSpace(args[0].(Str))
 	}
+	intrinsics["strings.Trim"] = func(e *Engine, fr *frame, fn *ssa.Function, args []Value) Value {
+		str, cut := args[0].(Str), args[1].(Str)
+		if cut.IsSym() {
+			panic(unsupported("strings.Trim with a symbolic cutset"))
+		}
+		if !str.IsSym() {
+			return Str{S: strings.Trim(str.S, cut.S)}
+		}
+		for i := 0; i < len(cut.S); i++ {
+			if cut.S[i] >= 0x80 {
+				panic(unsupported("strings.Trim on a symbolic string with a non-ASCII cutset"))
+			}
+		}
+		in := func(b *Term) *Term {
+			cs := make([]*Term, len(cut.S))
+			for i := 0; i < len(cut.S); i++ {
+				cs[i] = e.st.Eq(b, e.st.Const(8, uint64(cut.S[i])))
+			}
+			return e.st.Or(cs...)
+		}
+		lo, hi := 0, len(str.Sym)
+		for lo < hi && e.branch(in(str.Sym[lo])) {
+			lo++
+		}
+		for hi > lo && e.branch(in(str.Sym[hi-1])) {
+			hi--
+		}
+		return e.substr(str, lo, hi)
+	}
 	intrinsics["strings.Index"] = func(e *Engine, fr *frame, fn *ssa.Function, args []Value) Value {
 		return e.st.Const(64, uint64(int64(e.strIndex(args[0].(Str), args[1].(Str)))))
 	}
@@ -1211,22 +1240,87 @@ func isSpaceTerm(e *Engine, b *Term) *Term {
 		st.Eq(b, st.Const(8, '\r')), st.Eq(b, st.Const(8, '\v')), st.Eq(b, st.Const(8, '\f')))
 }
 
-// strTrimSpace: ASCII white space only (bytes >= 0x80 are outside the model and rejected).
+// unicodeSpaces: the UTF-8 encodings of the non-ASCII code points with the
+// Unicode White_Space property (what unicode.IsSpace accepts beyond Latin-1's
+// ASCII part): U+0085, U+00A0, U+1680, U+2000..U+200A, U+2028, U+2029, U+202F,
+// U+205F, U+3000.
+var unicodeSpaces = func() [][]byte {
+	var out [][]byte
+	for _, r := range []rune{0x85, 0xA0, 0x1680, 0x2000, 0x2001, 0x2002, 0x2003, 0x2004, 0x2005, 0x2006, 0x2007, 0x2008, 0x2009, 0x200A, 0x2028, 0x2029, 0x202F, 0x205F, 0x3000} {
+		out = append(out, []byte(string(r)))
+	}
+	return out
+}()
+
+// strTrimSpace models strings.TrimSpace on a symbolic string: ASCII white space
+// and the UTF-8 encoded Unicode white space above are trimmed from both ends; a
+// byte >= 0x80 that does not start (end) one of those encodings stops the
+// trimming, as it does in the real function (any other rune, or invalid UTF-8).
 func (e *Engine) strTrimSpace(s Str) Str {
 	if !s.IsSym() {
 		return Str{S: strings.TrimSpace(s.S)}
 	}
+	st := e.st
 	lo, hi := 0, len(s.Sym)
-	for _, b := range s.Sym {
-		if !b.IsConst() && !e.branch(e.st.Cmp(OpULt, b, e.st.Const(8, 0x80))) {
-			panic(unsupported("TrimSpace on symbolic non-ASCII byte"))
+	match := func(at int, seq []byte) *Term {
+		cs := make([]*Term, len(seq))
+		for j, c := range seq {
+			cs[j] = st.Eq(s.Sym[at+j], st.Const(8, uint64(c)))
 		}
+		return st.And(cs...)
 	}
-	for lo < hi && e.branch(isSpaceTerm(e, s.Sym[lo])) {
-		lo++
+	anyOfLen := func(at, n int) *Term {
+		var cs []*Term
+		for _, seq := range unicodeSpaces {
+			if len(seq) == n {
+				cs = append(cs, match(at, seq))
+			}
+		}
+		return st.Or(cs...)
 	}
-	for hi > lo && e.branch(isSpaceTerm(e, s.Sym[hi-1])) {
-		hi--
+	for lo < hi {
+		if e.branch(isSpaceTerm(e, s.Sym[lo])) {
+			lo++
+			continue
+		}
+		if s.Sym[lo].IsConst() && s.Sym[lo].Val < 0x80 {
+			break
+		}
+		if e.branch(st.Cmp(OpULt, s.Sym[lo], st.Const(8, 0x80))) {
+			break
+		}
+		adv := 0
+		for n := 2; n <= 3 && adv == 0; n++ {
+			if lo+n <= hi && e.branch(anyOfLen(lo, n)) {
+				adv = n
+			}
+		}
+		if adv == 0 {
+			break
+		}
+		lo += adv
+	}
+	for hi > lo {
+		if e.branch(isSpaceTerm(e, s.Sym[hi-1])) {
+			hi--
+			continue
+		}
+		if s.Sym[hi-1].IsConst() && s.Sym[hi-1].Val < 0x80 {
+			break
+		}
+		if e.branch(st.Cmp(OpULt, s.Sym[hi-1], st.Const(8, 0x80))) {
+			break
+		}
+		adv := 0
+		for n := 2; n <= 3 && adv == 0; n++ {
+			if hi-n >= lo && e.branch(anyOfLen(hi-n, n)) {
+				adv = n
+			}
+		}
+		if adv == 0 {
+			break
+		}
+		hi -= adv
 	}
 	return e.substr(s, lo, hi)
 }
